@@ -14,6 +14,7 @@ import (
 // correspondent PUBACK is received.
 type RetryTransaction struct {
 	*TransactionBase
+	ctx           context.Context
 	retryDelay    time.Duration
 	retryCount    uint
 	retryNumMutex sync.Mutex
@@ -46,6 +47,7 @@ var ErrRetryPostponed = errors.New("retry postponed")
 func NewRetryTransaction(ctx context.Context, retryDelay time.Duration, retryCount uint, retryCallback RTRetryCallback, finally FinallyCallback) *RetryTransaction {
 	t := &RetryTransaction{
 		TransactionBase: NewTransactionBase(finally),
+		ctx:             ctx,
 		retryDelay:      retryDelay,
 		retryCount:      retryCount,
 		retryCallback:   retryCallback,
@@ -102,8 +104,8 @@ func (t *RetryTransaction) stopTimer() {
 // You must acquire t.retryNumMutex before calling this function!
 func (t *RetryTransaction) restartTimer() {
 	t.stopTimer()
-	// A completed transaction must not be retried anymore.
-	if t.isDone() {
+	// A completed or cancelled transaction must not be retried anymore.
+	if t.isDone() || t.ctx.Err() != nil {
 		return
 	}
 	t.timer = time.AfterFunc(t.retryDelay, t.timeout)
@@ -113,8 +115,9 @@ func (t *RetryTransaction) timeout() {
 	t.retryNumMutex.Lock()
 	defer t.retryNumMutex.Unlock()
 
-	// The transaction could have been completed while the timer was firing.
-	if t.isDone() {
+	// The transaction could have been completed or cancelled while the
+	// timer was firing.
+	if t.isDone() || t.ctx.Err() != nil {
 		return
 	}
 	t.retryNum++
